@@ -27,8 +27,13 @@ ASSUMPTIONS = [
     "signal' a question of shape conventions the statement does not settle)",
     "the volume is demanded only when sum(lower) <= maxvol <= sum(upper) for the move box AND the multiplier root "
     "lies inside the routine's bracket [l1init, l2init] = [0, 1e5] (defaults, 'OC internal parameters'); updates whose "
-    "root lies outside the bracket are counted as observed_only 'multiplier_root_outside_bracket'",
-    "convergence is judged in the bounded-horizon form: sum c/x, tolx=tolf=0, maxit = 2*ceil(max range/move)+8 "
+    "root lies above the bracket are counted as observed_only 'multiplier_root_above_l2init' (sum c/x^2 started "
+    "at xmin; xmin = 0 with a zero volume target), likewise 'optimum_multiplier_outside_bracket' for the convergence "
+    "demand",
+    "zero-gradient variables (c table 'zero') are outside the quantifier (negative-gradient objectives): they are "
+    "explored for bounds, move limit and write-back, but an update in which they keep the volume from being met is "
+    "observed_only 'zero_gradient_variable_blocks_volume'; with xmin = 0 they are inadmissible (0/0)",
+    "convergence is judged in the bounded-horizon form: sum c/x, tolx=tolf=0, maxit = ceil(max(xmax-xmin)/move)+10 "
     "iterations, feasible volume; final objective and design inside the band a multiplier within l1l2tol of the "
     "exact KKT multiplier gives. Runs stopped by the default tolx/tolf are judged on every iteration but not on the "
     "distance of their last design to the optimum",
@@ -186,6 +191,8 @@ def admissible(case):
     sizes, how, n, c, xmin, xmax, bkw, x0, maxvol = problem(case)
     if np.any(x0 <= 0):
         return 'start design not strictly positive (objective c/x undefined)'
+    if np.any(c == 0) and np.any(oc.full(xmin, n) <= 0):
+        return 'zero-gradient variable with xmin = 0 (it is driven to x = 0 where c/x is 0/0)'
     if case['kind'] == 'comp' and float(np.dot(c, x0)) <= 0:
         return 'objective undefined'
     if case['kind'] != 'comp' and not np.any(c > 0):
@@ -310,8 +317,9 @@ def judge_run(case, tol, stop):
                      + ('' if inband else '/offband'))
             continue
         if not band['root_in_bracket']:
-            tags.add('root_outside_bracket')
-            obs.append('multiplier_root_outside_bracket')
+            why = 'multiplier_root_above_l2init' if band['root_above_bracket'] else 'zero_gradient_variable_blocks_volume'
+            tags.add(why)
+            obs.append(why)
             continue
         nchecks += 2
         free = band['free'] > 0
